@@ -95,12 +95,102 @@ def _c16_units():
     us.append(dict(obligation="c16_rank_new_is_power_of_two", engine="kani", crate="fontir", src=src,
                    functions=["fontir::feature_variations::Rank::new"], klass="bounded", domain="rule index i < 192 (1..3 words)",
                    pre="i < 192", post="val(Rank::new(i)) == 2^i", kind="obligation", tiers=["quick", "thorough"], timeout_s=300))
+    us.append(dict(obligation="c16_nbox_insert_get_clamps", engine="kani", crate="fontir", src=src,
+                   functions=["fontir::feature_variations::NBox::insert", "fontir::feature_variations::NBox::get"], klass="complete",
+                   domain="every non-NaN f64 (incl. +/-inf) or None for each bound, one axis inserted into an empty box; loop-free apart from the 4-byte Tag compare",
+                   pre="min, max: Option<non-NaN f64>", post="get(axis) == (max(min,-1), min(max,+1)) with None = open end; interval inside [-1,1]; a never-inserted axis reads (-1,+1)",
+                   kind="obligation", tiers=["quick", "thorough"], timeout_s=300))
     us.append(dict(obligation="c16_rank_cover", engine="kani", crate="fontir", src=src, functions=[], klass="complete", domain="", pre="",
                    post="generator reaches non-zero multi-word ranks, equal ranks of different length, odd ranks", kind="cover", tiers=["quick", "thorough"], timeout_s=300))
     return us
 
 
 UNITS["C16"] = _c16_units()
+
+
+# ------------------------------------------------------------------ C07
+def _k(ob, crate, src, fns, klass, domain, pre, post, tiers=("quick", "thorough"), timeout_s=300, kind="obligation", **kw):
+    return dict(obligation=ob, engine="kani", crate=crate, src=src, functions=fns, klass=klass, domain=domain, pre=pre, post=post,
+                kind=kind, tiers=list(tiers), timeout_s=timeout_s, **kw)
+
+
+_VAR = "fontdrasil/src/variations.rs"
+UNITS["C07"] = [
+    _k("c07_tent_new_never_spans_zero", "fontdrasil", _VAR, ["fontdrasil::variations::Tent::new"], "complete", "all f64 bit patterns for min, peak, max (NaN, inf, -0.0 included); loop-free",
+       "any (min, peak, max)", "t.peak == peak; peak > 0 => (t.min, t.max) == (0, max); else (t.min, t.max) == (min, 0); never spans zero: !(t.min < 0 && t.max > 0)"),
+    _k("c07_tent_new_valid_for_ordered_inputs", "fontdrasil", _VAR, ["fontdrasil::variations::Tent::new", "fontdrasil::variations::Tent::validate"], "complete", "all f64 with -1 <= min <= peak <= max <= 1; loop-free",
+       "-1 <= min <= peak <= max <= 1", "t.validate() and -1 <= t.min <= t.peak <= t.max <= 1"),
+    _k("c07_tent_validate_iff_spec", "fontdrasil", _VAR, ["fontdrasil::variations::Tent::validate"], "complete", "all f64 bit patterns; loop-free",
+       "any tent", "validate() <=> min <= peak <= max and not (min < 0 < max)  (OrderedFloat order)"),
+    _k("c07_tent_zeroes_and_has_non_zero", "fontdrasil", _VAR, ["fontdrasil::variations::Tent::zeroes", "fontdrasil::variations::Tent::has_non_zero"], "complete", "all non-NaN f64; loop-free",
+       "any non-NaN tent", "zeroes() == (0,0,0), valid, !has_non_zero; has_non_zero <=> not (0,0,0)"),
+    _k("c07_tent_region_axis_coords_valid", "fontdrasil", _VAR, ["fontdrasil::variations::Tent::to_region_axis_coords", "fontdrasil::coords::NormalizedCoord::to_f2dot14"], "complete",
+       "all f64 valid tents inside [-1,1]; loop-free", "valid tent inside [-1,1]", "F2Dot14 start <= peak <= end, not spanning zero, inside [-1,1], each within 2^-15 of its f64"),
+    _k("c07_tent_cover", "fontdrasil", _VAR, [], "complete", "", "", "positive, negative and invalid tents reachable", kind="cover"),
+]
+
+# ------------------------------------------------------------------ C08
+_PLM = "fontdrasil/src/piecewise_linear_map.rs"
+_PLMF = "fontdrasil::piecewise_linear_map::PiecewiseLinearMap::"
+UNITS["C08"] = [
+    _k("c08_plm_new_sorted_permutation_3", "fontdrasil", _PLM, [_PLMF + "new"], "bounded", "exactly 3 mapping pairs, arbitrary finite values |v| <= 1e9, any order, duplicates allowed",
+       "3 finite pairs", "from sorted ascending; output pairs are a permutation of the input pairs"),
+    _k("c08_plm_map_exact_at_nodes_3", "fontdrasil", _PLM, [_PLMF + "map"], "bounded", "exactly 3 nodes, strictly increasing finite `from`, arbitrary finite `to`",
+       "well-formed 3-node map", "map(from[k]) == to[k] for every node k"),
+    _k("c08_plm_map_exact_at_nodes_2", "fontdrasil", _PLM, [_PLMF + "map"], "bounded", "exactly 2 nodes", "well-formed 2-node map", "map(from[k]) == to[k]"),
+    _k("c08_plm_map_one_node_and_empty", "fontdrasil", _PLM, [_PLMF + "map"], "complete", "the 1-node and the empty map, all finite values; loop-free apart from the binary search over <= 1 element",
+       "1-node map / empty map", "exact at the node; translation elsewhere; empty map is the identity"),
+    _k("c08_plm_map_translates_outside_3", "fontdrasil", _PLM, [_PLMF + "map"], "bounded", "exactly 3 nodes; any finite x outside [from[0], from[2]]",
+       "well-formed 3-node map, x outside the nodes", "map(x) == x + to[end] - from[end] (fontTools piecewiseLinearMap semantics)"),
+    _k("c08_plm_map_duplicates_first_wins_3", "fontdrasil", _PLM, [_PLMF + "map"], "bounded", "exactly 3 nodes, non-decreasing `from` (duplicates allowed)",
+       "sorted 3-node map", "map at a duplicated `from` returns the FIRST node's `to` (ufo2ft #978)"),
+    _k("c08_plm_reverse_inverts_at_nodes_3", "fontdrasil", _PLM, [_PLMF + "reverse", _PLMF + "map"], "bounded", "exactly 3 nodes, strictly increasing from and to",
+       "strictly monotone 3-node map", "reverse() is well-formed and reverse().map(to[k]) == from[k]"),
+    _k("c08_plm_cover", "fontdrasil", _PLM, [], "complete", "", "", "node branch and extrapolation branch reachable with a non-trivial map", kind="cover"),
+]
+
+# ------------------------------------------------------------------ C17
+_MET = "fontbe/src/metrics_and_limits.rs"
+UNITS["C17"] = [
+    _k("c17_metrics_update_contract", "fontbe", _MET, ["fontbe::metrics_and_limits::MetricsBuilder::update"], "complete",
+       "arbitrary prior builder state; all u16 advances, i16 lsb, bounds in None | Some(0..=65535); loop-free",
+       "any state, any (advance, lsb, bounds)", "appends exactly (advance, lsb); advance_max' = max; non-empty: min_lsb' = min, max_extent' = max(.., clamp_i16(lsb+bounds)), min_rsb' = min(.., clamp_i16(adv-lsb-bounds)); empty: unchanged; no overflow"),
+    _k("c17_metrics_build_contract_n0_to_5", "fontbe", _MET, ["fontbe::metrics_and_limits::MetricsBuilder::build"], "bounded", "0..=5 glyphs, arbitrary advances and bearings, arbitrary summary state",
+       "n <= 5 pushed metrics", "|long| + |lsbs| == n; n>0 => |long| >= 1; long == prefix; every trimmed glyph's advance == last long advance and keeps its lsb; run minimal; header fields copied (None => 0)"),
+    _k("c17_metrics_build_contract_n6_to_8", "fontbe", _MET, ["fontbe::metrics_and_limits::MetricsBuilder::build"], "bounded", "6..=8 glyphs",
+       "6 <= n <= 8", "same as n0_to_5", tiers=("thorough",), timeout_s=1800),
+    _k("c17_glyph_limits_max_componentwise", "fontbe", _MET, ["fontbe::metrics_and_limits::GlyphLimits::max"], "complete", "all u16 triples; loop-free", "any a, b", "componentwise maximum"),
+    _k("c17_unicode_ranges_table_well_formed", "fontbe", "fontbe/src/os2.rs", ["fontbe::os2::UNICODE_RANGES (precondition of add_unicode_range_bits' binary search)"], "complete",
+       "the constant table (loop bounded by its length)", "-", "sorted by start, from <= to <= 0x10FFFF, pairwise disjoint, bit < 128"),
+    _k("c17_metrics_cover", "fontbe", _MET, [], "complete", "", "", "full / partial / no trimming and both clamps reachable", kind="cover"),
+]
+
+# ------------------------------------------------------------------ C13
+_LEXFNS = ["nth", "bump", "next_token", "whitespace", "comment", "string", "hyphen_or_minus", "number", "eat_octal_digits", "eat_hex_digits",
+           "eat_decimal_digits", "cid", "glyph_class_name", "eat_ident", "ident", "path", "is_special", "is_ascii_whitespace"]
+_LEXPOST = {
+    "next_token": "T1 final.pos == old.pos + r.len <= |input| (lossless tiling); T2 old.pos < |input| => r.len >= 1 (progress); T3 r.kind == Eof <=> old.pos == |input|; input unchanged; all index/arith obligations",
+    "nth": "returns input[pos+index] or 0 past the end; no overflow",
+    "bump": "advances by exactly one byte iff pos < |input| and returns it; frame",
+}
+UNITS["C13"] = [
+    dict(obligation=f"verus_lexer_{fn}", engine="verus", verus_fn=fn, crate="fea-rs", src="fea-rs/src/parse/lexer.rs",
+         functions=[f"fea_rs::parse::lexer::{'Lexer::' if fn not in ('is_special', 'is_ascii_whitespace') else ''}{fn}"],
+         klass="complete", domain="every input length (unbounded), every byte content",
+         pre="wf(lexer): pos <= |input| <= 2^63-16",
+         post=_LEXPOST.get(fn, "wf preserved; frame (only the cursor moves); pos monotone; returned kind is never Eof; every loop decreases |input| - pos; no index/arith failure"),
+         kind="obligation", tiers=["quick", "thorough"], timeout_s=600)
+    for fn in _LEXFNS
+] + [
+    dict(obligation="verus_lexer_lemma_tiling", engine="verus", verus_fn="lemma_tiling", crate="fea-rs", src="fea-rs/src/parse/lexer.rs", functions=[],
+         klass="complete", domain="all n, all length sequences", pre="every lexeme length >= 1; start + sum(lens) == n", post="at most n - start lexemes (a driver loop over next_token's contract terminates having consumed exactly the input)",
+         kind="obligation", tiers=["quick", "thorough"], timeout_s=600),
+    _k("c13_lexer_contract_inputs_up_to_3_bytes", "fea-rs", "fea-rs/src/parse/lexer.rs", ["fea_rs::parse::lexer::Lexer::next_token (real, unextracted)"], "bounded",
+       "every valid UTF-8 input of <= 3 bytes, first three tokens", "valid UTF-8, |input| <= 3", "T1, T2, T3 on each of the first three next_token calls", timeout_s=900, companion=True),
+    _k("c13_from_keyword_never_eof", "fea-rs", "fea-rs/src/parse/lexer/lexeme.rs", ["fea_rs::parse::lexer::lexeme::Kind::from_keyword"], "bounded",
+       "every byte word of length <= 26 (longest keyword has 25 bytes)", "|word| <= 26", "result is never Some(Eof/Tombstone/Ident/Whitespace); empty word => None  (the contract the Verus proof assumes for this external_body function)", timeout_s=900),
+    _k("c13_lexer_cover", "fea-rs", "fea-rs/src/parse/lexer.rs", [], "complete", "", "", "identifier, non-ASCII byte, number reachable", kind="cover", timeout_s=900),
+]
 
 # Assumptions common to every Kani unit (reported in every evidence file)
 KANI_TRUSTED = [
